@@ -241,7 +241,25 @@ def cenv(e):
 
 HOSTS = [None, "example.org", "example.org:80", "example.org:8080", "example.org:443", "localhost", "127.0.0.1:8000",
          "EXAMPLE.org", "a.b-c.example:81", "user@example.org"]
+HOSTS += ["10.0.0.80:80", "web08:80", "10.1.2.34:443", "h43:443", "192.168.1.8", "80", "x0:8080"]   # host text vs port text
 HOSTS_V6 = ["[::1]", "[::1]:8080", "[2001:db8::1]:443"]
+# host names that END in a character of the default-port text ":80" / ":443" (or ARE that text), and port spellings
+# around the defaults: cutting the default port must not touch the host (an exhaustive small product, see port_envs)
+PORT_NAMES = ["10.0.0.80", "192.168.1.8", "10.0.0.0", "172.16.0.43", "10.1.2.34", "10.9.9.3", "web08", "a8", "x0", "h43",
+              "h4", "n3", "80", "443", "8", "0", "4", "example.org", "EXAMPLE.ORG80"]
+PORT_TEXTS = [None, "80", "443", "8080", "4430", "800", "4433", "08", "43", "8", "0"]
+
+
+def port_envs(v6=False, script="", path="/p"):
+    out = []
+    for scheme in ("http", "https"):
+        for name in PORT_NAMES + (["[::8]", "[::80]", "[1::443]"] if v6 else []):
+            for port in PORT_TEXTS:
+                out.append(mkenv(scheme=scheme, host=name if port is None else name + ":" + port, name="unused.local",
+                                 port="8081", script=script, path=path, query="q=1"))
+                if port is not None and not name.startswith("["):
+                    out.append(mkenv(scheme=scheme, host=None, name=name, port=port, script=script, path=path, query="q=1"))
+    return out
 SCRIPTS = [None, "", "/app", "/a b", "/app;v=1", "/x/y"]
 PATHS = ["", "/", "/dir/page", "//evil.com/x", "/a/../b", "/x;y/z;w", "/a%b", "/dir/", "/q?r", "/\xc3\xa9", "/..", "/a//b/"]
 QUERIES = [None, "", "x=1", "a=b&c=d/e", "next=//evil.com"]
@@ -250,7 +268,8 @@ PORTS = ["80", "443", "8080"]
 
 def rand_env(rng, ascii_paths=False, with_path=False):
     paths = [p for p in PATHS if not ascii_paths or all(ord(c) < 128 for c in p)]
-    return mkenv(scheme=rng.choice(["http", "https"]), host=rng.choice(HOSTS), name=rng.choice(["srv.local", "10.0.0.1"]),
+    return mkenv(scheme=rng.choice(["http", "https"]), host=rng.choice(HOSTS),
+                 name=rng.choice(["srv.local", "10.0.0.1", "10.0.0.80", "h43"]),
                  port=rng.choice(PORTS), script=rng.choice(SCRIPTS),
                  path=rng.choice(paths) if with_path or rng.random() < 0.9 else None, query=rng.choice(QUERIES))
 
@@ -1267,6 +1286,7 @@ def run(ctx):
         ctx.broken.append(p)
     ctx.build(["Props/C14.vo"])
     seed_stage(ctx)
+    port_stage(ctx)
     history_stage(ctx, seeds_only=True)
     cfg_stage(ctx, seeds_only=True)
     edit_stage(ctx, seeds_only=True)
@@ -1311,6 +1331,10 @@ def run(ctx):
         cases.append((cenv(e), impl_request_uri(e), {"env": e}))
         e2 = rand_env(rng, ascii_paths=True, with_path=True)
         cases2.append((cenv(e2), impl_path_url(e2), {"env": e2}))
+    for e in port_envs():
+        cases.append((cenv(e), impl_request_uri(e), {"env": e, "oracle": {"path": "static", "env": e, "value": "/login"}}))
+        cases2.append((cenv(e), impl_path_url(e), {"env": e, "oracle": {"path": "move:HTTPFound", "env": e, "value": None,
+                                                                          "add_slash": True}}))
     bad = ctx.corr("request_uri", IMPORTS, "(fun e => VStr (request_uri e))", cases, in_type="environ")
     _report_corr(ctx, "request_uri", cases, bad)
     bad = ctx.corr("path_url", IMPORTS, "(fun e => VStr (path_url e))", cases2, in_type="environ")
@@ -1530,6 +1554,37 @@ def seed_stage(ctx):
                     if res:
                         ctx.fail(res[0], res[1], case, True, "seeds")
     ctx.oracle_count("seeds", cnt, nt)
+
+
+def port_stage(ctx):
+    """Host text against port text: every host ending x port spelling x Host-header / SERVER_NAME+SERVER_PORT, through
+    every kind of serving path; the emitted authority must be the request's (default port dropped, nothing else)."""
+    envs = port_envs(v6=True) + (port_envs(script="/app", path="") if ctx.thorough else [])
+    cnt = 0
+    for i, e in enumerate(envs):
+        for v, path in (("/login", "static"), ("//evil.com/x", "plain"), ("x", "cond-304"), ("?q", "cond-206"),
+                        ("/login", "move:" + MOVE_CLASSES[i % len(MOVE_CLASSES)]), ("../up", "move:HTTPFound")):
+            cnt += 1
+            case = {"path": path, "env": e, "value": v}
+            res = check_case(case)
+            if res:
+                ctx.fail(_port_key(res, case), res[1], case, True, "ports")
+        for case in ({"path": "move:HTTPSeeOther", "env": e, "value": None, "add_slash": True},
+                     {"path": "move:HTTPFound", "env": e, "value": None}):
+            cnt += 1
+            res = check_case(case)
+            if res:
+                ctx.fail(_port_key(res, case), res[1], case, True, "ports")
+    ctx.oracle_count("ports", cnt, cnt)
+
+
+def _port_key(res, case):
+    """A failure that disappears when the same value is served for a plain `example.org` host is about how the
+    host[:port] text of THIS request is handled, not about the value."""
+    neutral = dict(case, env=dict(case["env"], host="example.org"))
+    if check_case(neutral) is None:
+        return res[0].split(":")[0] + ":request-host-port-mangled"
+    return res[0]
 
 
 def oracle_sweep(ctx):
